@@ -282,7 +282,7 @@ def r3_in_place_gated(ctx, P, D):
 
 def r4_slow_path(ctx, P, D):
     R = "C01.R4"
-    ctx.rule(R, "slow path: later chunks are reset and made current before being offered; append only after the walk "
+    ctx.rule(R, "slow path: later chunks are reset before being offered and the one that satisfied the request becomes current; append only after the walk "
                 "is exhausted; the layout that sizes the new chunk is the one allocated in it")
     body = None
     for b in P.fn_bodies():
@@ -310,10 +310,22 @@ def r4_slow_path(ctx, P, D):
                      "is offered to the allocation callback" if r_ok else
                      "a later chunk is offered without being reset: its stale position lets new blocks overlap memory "
                      "that was handed out before a scope exit... or wastes it", where=body.where(fs), site="walk: reset before offer")
-            s_ok = any(body.dominates(ss, fs) and any(body.dominates(ns, ss) for ns, _ in nexts) for ss, _ in sets)
-            ctx.inst(R, body.path, s_ok, "the chunk is made current (self.chunk.set) before the callback allocates in it"
-                     if s_ok else "the callback allocates in a chunk that is not the current one",
-                     where=body.where(fs), site="walk: current before offer")
+            s_before = any(body.dominates(ss, fs) and any(body.dominates(ns, ss) for ns, _ in nexts) for ss, _ in sets)
+            # or: once the callback returned Some, every return path makes exactly the offered chunk current
+            offered = body.prov_operand(ft["args"][1], fs)
+            offered = offered[4][0] if offered[0] == "agg" and offered[4] else None
+            same = [ss.bb for ss, st in sets if offered is not None and body.prov_operand(st["args"][1], ss) == offered]
+            some_edges = [e for e in body.variant_edges(lambda e: e[0] == "call" and e[1] == ft["f"]["path"]).get("Some", [])
+                          if fs.bb in (e[0],) or (body.dominates(fs, Site(e[0], 0)) and not any(
+                              o is not fs and body.dominates(fs, o) and body.dominates(o, Site(e[0], 0)) for o, _ in fcalls))]
+            s_after = bool(same) and bool(some_edges) and all(
+                body.must_pass(None, same, exits=(RET,), cleanup=False, from_edge=e[1])[0] for e in some_edges)
+            s_ok = s_before or s_after
+            ctx.inst(R, body.path, s_ok, "the offered chunk is made current (self.chunk.set) " +
+                     ("before the callback allocates in it" if s_before else "on every return path after the callback allocated in it")
+                     if s_ok else "the callback allocates in a chunk that does not become the current one: the next "
+                     "allocation bumps a different chunk and later scope exits/reset lose track of the block",
+                     where=body.where(fs), site="walk: offered chunk becomes current")
         else:
             s_ok = any(body.dominates(ss, fs) and not any(body.can_reach(ss, ns) for ns, _ in nexts) for ss, _ in sets)
             ctx.inst(R, body.path, s_ok, "the new chunk is made current before the callback allocates in it" if s_ok else
